@@ -7,6 +7,17 @@ def wire_stage(prop, cases, name="native", kind="native", **kw):
     return d
 
 
+def c01_stages(tier):
+    if tier == "quick":
+        return [wire_stage("C01", 50_000, crash_is_violation=True),
+                wire_stage("C01", 128, name="miri", kind="miri", shards=16, timeout=600)]
+    return [wire_stage("C01", 3_000_000, timeout=2400, crash_is_violation=True),
+            wire_stage("C01", 600_000, name="checked", kind="checked", timeout=1800, crash_is_violation=True),
+            wire_stage("C01", 40_000, name="asan", kind="asan", timeout=1800, crash_is_violation=True),
+            wire_stage("C01", 3_000, name="valgrind", kind="valgrind", timeout=2400),
+            wire_stage("C01", 2400, name="miri", kind="miri", shards=16, timeout=3000)]
+
+
 def c02_stages(tier):
     if tier == "quick":
         return [wire_stage("C02", 150_000), wire_stage("C02", 192, name="miri", kind="miri", shards=16, timeout=600)]
@@ -20,6 +31,24 @@ def c03_stages(tier):
 
 
 PROPS = {
+    "C01": {
+        "level": "exploration",
+        "stages": c01_stages,
+        "floor": 1000,
+        "technique": "runtime monitoring: hostile-input stress of handle_message with reply-stream monitors (one SEQPACKET record per write call, "
+                     "guest-memory byte diff, guard-band canaries) plus Miri / ASan / valgrind / overflow-checked builds",
+        "level_text": "Well-formed requests of all 47 opcodes, 12 structured mutation classes and random byte strings are fed through the real "
+                      "handle_message over fusedev (separate and aliased buffers) and virtio (random and exhaustive single-cut chains) at reply "
+                      "capacities {0,1,15,16,17,need-1,need,need+1,...}; monitors count write calls, parse every emitted record, diff all memory "
+                      "around the buffers and attribute crashes to the case in flight. Sanitizer tiers re-run the workload under Miri (virtio), "
+                      "ASan, valgrind and a debug-assert/overflow-checked build. Sampled: held on K executions.",
+        "level_note": "Trusts the harness' notion of 'well-formed' (the C02 generator) and 'sufficient capacity' (reply length learnt from an ample-capacity run "
+                      "of the same seeded script). id_remap failures are not scripted. Miri cannot execute the /dev/fuse writer (writev).",
+        "rule": "case = (opcode, class in {well-formed x capacity probes, 12 mutation classes, random bytes}); distinct = (opcode, mutation class, "
+                "transport/segmentation class, capacity class, outcome class) plus every (opcode, cut position) of the exhaustive single-cut sweep; "
+                "all cases reach handle_message (non-trivial).",
+        "assumptions": ["kernel layout table from /usr/include/linux/fuse.h", "SOCK_SEQPACKET delivers one record per write()/writev()"],
+    },
     "C02": {
         "level": "exploration",
         "technique": "runtime monitoring: differential decode oracle (kernel-layout client vs logging filesystem) over randomized requests; Miri on the virtio path",
